@@ -61,6 +61,7 @@ struct ThreadPool::Data {
 
     size_t idle_thread_num = 0;         //!< 空间线程个数
     cabinet::Cabinet<std::thread> threads_cabinet;
+    std::set<std::thread*> retiring_threads;    //!< 已决定退出、但尚未将自己交给main_loop去join()的线程
     bool all_threads_stop_flag = false; //!< 是否所有工作线程立即停止标记
 
     size_t undo_task_peak_num_ = 0;
@@ -259,6 +260,11 @@ void ThreadPool::cleanup()
         );
         d_->threads_cabinet.clear();
 
+        //! 正在退出途中的线程也由 cleanup() 接管并 join()，保证 cleanup() 返回后不再有工作线程存活
+        for (auto t : d_->retiring_threads)
+            thread_vec.push_back(t);
+        d_->retiring_threads.clear();
+
         //! 必须在持锁期间置位，否则正准备进入等待的线程会错过通知
         d_->all_threads_stop_flag = true;
     }
@@ -292,7 +298,6 @@ ThreadPool::Snapshot ThreadPool::snapshot() const
 void ThreadPool::threadProc(ThreadToken thread_token)
 {
     std::thread *retired_thread = nullptr;  //!< 非空表示本线程已决定退出，需交由main_loop去join()
-    event::Loop *wp_loop = nullptr;
 
     LogDbg("thread %u start", thread_token.id());
 
@@ -312,7 +317,8 @@ void ThreadPool::threadProc(ThreadToken thread_token)
                  * 导致新提交的任务无线程可执行
                  */
                 retired_thread = d_->threads_cabinet.free(thread_token);
-                wp_loop = d_->wp_loop;
+                if (retired_thread != nullptr)
+                    d_->retiring_threads.insert(retired_thread);
                 break;
             }
 
@@ -378,12 +384,16 @@ void ThreadPool::threadProc(ThreadToken thread_token)
     LogDbg("thread %u exit", thread_token.id());
 
     if (retired_thread != nullptr) {
-        //! 将线程对象交给main_loop去join()，然后delete
-        auto t = retired_thread;
-        wp_loop->runInLoop(
-            [t]{ t->join(); delete t; },
-            "ThreadPool::threadProc, join and delete it"
-        );
+        std::unique_lock<std::mutex> lk(d_->lock);
+        //! 如果已不在 retiring_threads 中，说明 cleanup() 已接管了本线程对象，由它去 join() 与 delete
+        if (d_->retiring_threads.erase(retired_thread) != 0) {
+            //! 将线程对象交给main_loop去join()，然后delete
+            auto t = retired_thread;
+            d_->wp_loop->runInLoop(
+                [t]{ t->join(); delete t; },
+                "ThreadPool::threadProc, join and delete it"
+            );
+        }
         //! 这个操作放到最后来做是为了减少主线程join()的等待时长
     }
 }
